@@ -89,6 +89,15 @@ def make_case(rng, with_faults):
         shape["obj"] = "real:" + name
         allsec, code = _sections_of(elf)
         meta = [{"name": s, "raw": False, "data": s not in code} for s in allsec]
+    elif r0 < 0.1205:
+        # a bloated object: 65 MiB of zero data around a handful of instructions
+        src, meta = gen.gen_bloated_source(rng)
+        elf = gen.assemble(src)
+        if elf is None:
+            return None
+        shape["obj"] = "as:bloated:65MiB"
+        allsec = [m["name"] for m in meta]
+        code = [m["name"] for m in meta if not m["data"]]
     elif r0 < 0.122:
         # many one-byte instructions: the listing is several MB and tens of times the size of the object;
         # the rule sits at the very end
@@ -161,7 +170,12 @@ def make_case(rng, with_faults):
         if elf is None:
             return None
         shape["obj"] = f"as:{len(meta)}sec:{'raw' if any(m['raw'] and not m['data'] for m in meta) else 'text'}{':data' if any(m['data'] for m in meta) else ''}"
-        if rng.random() < 0.15:
+        if rng.random() < 0.08 and len(meta) >= 2:
+            sc = gen.scatter_sections(elf, [m["name"] for m in meta], rng)
+            if sc is not None:
+                elf = sc
+                shape["obj"] += ":scattered"
+        elif rng.random() < 0.15:
             base = rng.choice([0x400000, 0x10000000, 0xfff00000, 0x7fff00000000, 0xffffffff81000000])
             moved = gen.relocate(elf, base)
             if moved is not None:
